@@ -30,7 +30,7 @@ def scripts(rng, tier, n=None):
             L.append(f"poke_rtcp 1 0 {H(ssrc)} {H(st)}")
         for i in range(8 if tier == "quick" else 30):
             pkt = rtcp_packet(ssrc, rand_key(rng, rng.choice([0, 4, 16, 20, 100, 4 * rng.randrange(0, 300)])), pt=rng.choice([200, 201]))
-            mi = rng.randrange(len(p.keys)) if p.use_mki else 0
+            mi = rng.randrange(len(p.keys)) if p.use_mki else rng.choice([0, 0, 1, 3])      # without MKIs the argument is documented as ignored
             L.append(pkt_op("protect_rtcp", 1, pkt, cap=len(pkt) + p.trailer(False), mode=rng.choice([0, 1, 2]), mki_index=mi)); a = len(L)
             L.append(f"peek 1 0 {H(ssrc)}")
             L.append(pkt_op("unprotect_rtcp", 2, f"@{a:x}", cap=len(pkt) + p.trailer(False), mode=rng.choice([0, 1, 2])))
